@@ -21,10 +21,20 @@ def run(ctx, ps, gen_bad):
     cov['crash_images_passing_every_relation'] = c2['distinct_nontrivial']
     cov['crash_rule'] = c2['rule']
     cov['evaluations'] += c2['evaluations']
+    # a REMOVE held between giving up and re-taking its locks while the name is bound to another object: the disk the
+    # history ends on must be well-formed (and the history explained by a sequential order)
+    import concengine
+    f3, c3 = concengine.run(ctx, 'C04', [('rmrebind', 3, 6, 5 if ctx.quick else 120)], kinds={'wf', 'lin', 'panic'})
+    fails += f3
+    cov['concurrent_histories_with_a_rebound_name'] = c3['evaluations']
+    cov['evaluations'] += c3['evaluations']
     return fails, cov
 
 
 def replay(ctx, path):
+    if 'shape' in json.load(open(path)):
+        import concengine
+        return concengine.replay(ctx, path)
     if 'budget' in json.load(open(path)):
         return crashengine.replay(ctx, path)
     return seqprops.replay(ctx, path)
